@@ -177,6 +177,33 @@ def permuted_union(ch):
         lambda xs: st.permutations(xs).map(lambda ys: (("union", list(xs)), ("union", list(ys)))))
 
 
+def reordered(r):
+    """The same value written with every order-insensitive component reversed: union members and
+    TypedDict items (equal by construction, at any nesting depth)."""
+    if isinstance(r, (list, tuple)) and r and isinstance(r[0], str):
+        tag = r[0]
+        rest = [reordered(x) if isinstance(x, (list, tuple)) else x for x in r[1:]]
+        if tag == "union" and rest and isinstance(rest[0], list):
+            rest[0] = list(reversed(rest[0]))
+        if tag == "td" and rest and isinstance(rest[0], list):
+            rest[0] = list(reversed(rest[0]))
+        return type(r)([tag] + rest) if isinstance(r, list) else (tag, *rest)
+    if isinstance(r, (list, tuple)):
+        return type(r)(reordered(x) if isinstance(x, (list, tuple)) else x for x in r)
+    return r
+
+
+def reordered_pairs(ch):
+    """(r, reordered(r)) for recipes that contain a union or a TypedDict with >= 2 items."""
+    def interesting(r):
+        if isinstance(r, (list, tuple)):
+            if r and r[0] in ("union", "td") and len(r) > 1 and isinstance(r[1], list) and len(r[1]) >= 2:
+                return True
+            return any(interesting(x) for x in r)
+        return False
+    return ch.filter(interesting).map(lambda r: (r, reordered(r)))
+
+
 def contains_tag(r, tag):
     if isinstance(r, (list, tuple)):
         if r and r[0] == tag:
